@@ -92,6 +92,14 @@ func workerMain(caseFile, resultFile string) {
 		rec = newPCRecorder()
 		res.NumCUs = rec.attach(p)
 	}
+	var cmdRec *cmdRecorder
+	if c.WantCmds {
+		cmdRec = newCmdRecorder(p)
+	}
+	var ctrs []*counterTracer
+	if c.WantCounters {
+		ctrs = attachCounters(p)
+	}
 	b := w.New(p.Driver, parseArch(c.Arch), c.Params)
 	b.SelectGPU(gpus)
 	if c.UM {
@@ -131,6 +139,19 @@ func workerMain(caseFile, resultFile string) {
 	}
 	if rec != nil {
 		res.Wfs, res.InstCount = rec.result()
+	}
+	if cmdRec != nil || ctrs != nil {
+		// the engine goroutine may still be draining idle ticks: let it finish, so that the
+		// time read below is the time the simulation ended at
+		if !waitEngineIdle(p) {
+			fmt.Fprintln(os.Stderr, "PLATLAT-NOTE engine still running 2 s after the last command completed")
+		}
+	}
+	if cmdRec != nil {
+		res.Cmds = cmdRec.result()
+	}
+	if ctrs != nil {
+		res.Counters = counterResult(ctrs)
 	}
 	res.SimTime = float64(p.Sim.GetEngine().CurrentTime())
 	close(done)
